@@ -103,20 +103,23 @@ func c17r2(r *R) {
 		if !ok {
 			return
 		}
-		gs := c.guardStrs(i.Block())
-		if !hasGuard(gs, "+((net.Listener).Accept(p1)#1 != nil)") {
-			return
-		}
-		n++
-		o.AtI(i)
-		// named/alloc'd result: resolve the value stored last
-		e := retExpr(c, ret, 0)
-		if hasGuard(gs, "+(*proxyserver.Server).shuttingDown(p0)") {
-			o.Check(e == "http.ErrServerClosed", "on the shutdown edge Serve returns %s, want http.ErrServerClosed", e)
-		} else if hasGuard(gs, "-(*proxyserver.Server).shuttingDown(p0)") {
-			o.Check(e == "(net.Listener).Accept(p1)#1", "outside shutdown Serve returns %s, want the accept error", e)
-		} else {
-			o.Fail("accept-error return is not decided by shuttingDown(); guards %v", gs)
+		// one case per value the result can have here (a result chosen inside the loop and returned after it reads like
+		// a return inside the loop)
+		for _, vc := range c.valueCases(retValue(ret, 0), i.Block()) {
+			gs := vc.Guards
+			if !hasGuard(gs, "+((net.Listener).Accept(p1)#1 != nil)") {
+				continue
+			}
+			n++
+			o.AtI(i)
+			e := vc.E
+			if hasGuard(gs, "+(*proxyserver.Server).shuttingDown(p0)") {
+				o.Check(e == "http.ErrServerClosed", "on the shutdown edge Serve returns %s, want http.ErrServerClosed", e)
+			} else if hasGuard(gs, "-(*proxyserver.Server).shuttingDown(p0)") {
+				o.Check(e == "(net.Listener).Accept(p1)#1", "outside shutdown Serve returns %s, want the accept error", e)
+			} else {
+				o.Fail("accept-error return is not decided by shuttingDown(); guards %v", gs)
+			}
 		}
 	})
 	o.Check(n == 2, "expected two returns on the accept-error edge (shutdown / not shutdown), found %d", n)
